@@ -1,7 +1,8 @@
 import QcelVerif.Model.PTShipped
+import QcelVerif.Model.Dec
 import QcelVerif.Lib.Proto
 /-! Line-protocol driver for the C01 model:  `<accessor> <strict 0|1> i <int>` | `<accessor> <strict> s <hex bytes>`
-accessors: key Z E name A mass period group.  Output `ok <value>` / `err NotAnElement` / `bad-op`. -/
+accessors: key Z E name A mass massbits (IEEE bits of float(mass)) period group.  Output `ok <value>` / `err NotAnElement` / `bad-op`. -/
 open QcelVerif QcelVerif.PT QcelVerif.PStr QcelVerif.Proto
 
 def hexVal (c : Char) : Option Nat :=
@@ -35,6 +36,7 @@ def stepC01 (line : String) : String :=
       else if acc == "name" then fmt ((shipped.toName a strict).map showStr)
       else if acc == "A" then fmt ((shipped.toA a).map toString)
       else if acc == "mass" then fmt ((shipped.toMass a).map showStr)
+      else if acc == "massbits" then fmt ((shipped.toMass a).bind (fun m => (Dec.parse (unpack m)).map (fun d => toString d.toF64)))
       else if acc == "period" then fmt ((shipped.toPeriod a).map toString)
       else if acc == "group" then fmt ((shipped.toGroup a).map (fun g => match g with | some n => toString n | none => "None"))
       else "bad-op"
